@@ -514,7 +514,7 @@ func TestVerifC10(t *testing.T) {
 	}
 	var wls []wl
 	wls = append(wls, wl{"scripted-W3", 3, false, 0}, wl{"scripted-W100", 100, false, 0})
-	for i := 0; i < verifkit.Pick(16, 120); i++ {
+	for i := 0; i < verifkit.Pick(16, 600); i++ {
 		win := 3
 		if i%3 == 2 {
 			win = 100
